@@ -45,6 +45,10 @@ def judge(ctx, cases, label):
         if spec is None or spec["cls"] in ("UNSUPPORTED", "TIMEOUT", "DECODE-ERROR"):
             ctx.broken.append(f"correspondence:spec-does-not-cover:{name}")
             continue
+        if "TERM" in ((vm or {}).get("cls"), (tree or {}).get("cls")) and spec["cls"] != "TERM":
+            # the harness's own wall-clock guard fired (machine under load): re-run alone with a generous limit before judging
+            rr = progstream.run_all([src], with_spec=False, timeout_ms=60000)[0]
+            vm, tree = rr.get("VM", vm), rr.get("TREE", tree)
         for bname, o in (("VM", vm), ("interpreter", tree)):
             if o is None:
                 continue
@@ -76,6 +80,9 @@ def judge_sources(ctx, named, label):
             ctx.broken.append(f"correspondence:spec-does-not-cover:{name}")
             continue
         bad = False
+        if "TERM" in ((vm or {}).get("cls"), (tree or {}).get("cls")) and spec["cls"] != "TERM":
+            rr = progstream.run_all([src], with_spec=False, timeout_ms=60000)[0]
+            vm, tree = rr.get("VM", vm), rr.get("TREE", tree)
         for bname, o in (("VM", vm), ("interpreter", tree)):
             if o is None:
                 continue
